@@ -350,7 +350,7 @@ class Storage(RoleClient):
 
 # ------------------------------------------------------------------------------------------ error injection
 def gen_inject(rng) -> dict:
-    kind = rng.choice(["video", "video", "audio", "text"])
+    kind = rng.choice(["video", "video", "audio"])     # the forged text track has only two segments
     code = rng.choice([404, 410, 503, 504, 503])
     k = rng.choice([None, 0, 1, 2, 3]) if code >= 500 else None
     target = rng.randrange(2, 5)
